@@ -957,8 +957,10 @@ fn run_mismatch(ctx: &Ctx, id: u64, st: &mut Stats) {
         Fmt::Sna => write_sna(&a),
         Fmt::Szx => write_szx(&a, &opts, &mut rng),
     };
-    let kind = if rng.bool() { Prior::Fresh } else { Prior::Ran };
+    let kind = if rng.bool() { Prior::Fresh } else if rng.bool() { Prior::Ran } else { Prior::random(&mut rng, !file128) };
     let (mut m, _) = make_prior(&mut rng, !file128, kind);
+    let c0 = capture(&mut m);
+    let h0 = (m.cpu().halted, m.cpu().skip_interrupt);
     let name = format!("{}:{}-file-on-{}-machine", fmt.name(), if file128 { "128k" } else { "48k" }, if file128 { "48k" } else { "128k" });
     st.cases += 1;
     st.kind(&format!("mismatch-{}", name));
@@ -966,7 +968,35 @@ fn run_mismatch(ctx: &Ctx, id: u64, st: &mut Stats) {
     st.checks += 1;
     let det = |x: J| jobj! {"case"=>id,"format"=>fmt.name(),"file_is128"=>file128,"prior"=>kind.name(),"szx_opts"=>opts.describe(),"latch"=>a.latch,"observed"=>x,"file"=>file_json(&bytes)};
     match load(&mut m, fmt, &bytes) {
-        Err(e) if e.starts_with("rejected:") => {}
+        Err(e) if e.starts_with("rejected:") => {
+            // "rejected with an error rather than applied": the receiving machine is as it was –
+            // registers, memory, paging and its lock, border, frame position, halted / EI-pending
+            let c1 = capture(&mut m);
+            let h1 = (m.cpu().halted, m.cpu().skip_interrupt);
+            let mut changed: Vec<String> = vec![];
+            if reg_items(&c0.r) != reg_items(&c1.r) {
+                changed.push("registers".into());
+            }
+            if c0.pages != c1.pages {
+                changed.push("memory".into());
+            }
+            if (c0.latch, c0.locked) != (c1.latch, c1.locked) {
+                changed.push(format!("paging {:02x}/{} -> {:02x}/{}", c0.latch, c0.locked, c1.latch, c1.locked));
+            }
+            if c0.border != c1.border {
+                changed.push("border".into());
+            }
+            if c0.clock != c1.clock {
+                changed.push("frame clock".into());
+            }
+            if h0 != h1 {
+                changed.push(format!("halted/interrupt-hold-off {:?} -> {:?}", h0, h1));
+            }
+            st.checks += 6;
+            if !changed.is_empty() {
+                ctx.violation(&format!("mismatch:{}:rejected-but-changed-the-machine", name), &format!("the file was rejected with an error, yet the receiving machine changed: {}", changed.join(", ")), det(J::Str(e)));
+            }
+        }
         Err(e) => ctx.violation(&format!("mismatch:{}:{}", name, e), "a file for the other model must be rejected with an error, not crash", det(J::Str(crate::last_panic()))),
         Ok(()) => {
             // accepted alternative: the file's 48 KiB visible at 0x4000..0xFFFF
